@@ -375,6 +375,7 @@ fn scripted_case(kind: KindTag, world: usize, radius_factor: f64, seq: &[usize])
         space2: None,
         fault_persists: false,
         raw_space: false,
+        prm_timeout: None,
     }
 }
 
